@@ -130,4 +130,13 @@ for (ua, ub), order in itertools.product((('nm', 'nm'), ('um', 'nm'), ('m', 'ang
         grid, val = (reference(wa, va, wb, vb, 'add', 'min', 'linear', 0) if order == 'lower-first' else reference(wb, vb, wa, va, 'add', 'min', 'linear', 0))
         gw = res.wave * SI[res.waveunit] / 1e-9
         c.check(bool(gw.shape == grid.shape and np.allclose(gw, grid, rtol=1e-9)), {'disjoint_small_gap': (ua, ub), 'order': order, 'samples': int(gw.size), 'expected': int(grid.size)})
+for dta, dtb, fill in itertools.product((int, float), (int, float), (0, 0.5)):
+    with c.case({'value_dtypes': (dta.__name__, dtb.__name__), 'fill': fill}):
+        wa, wb = np.array([400., 450, 520, 600, 700]), np.array([430., 500, 640, 760])
+        va, vb = np.array([1, 3, 2, 5, 4]).astype(dta), np.array([2, 7, 1, 3]).astype(dtb)
+        res = Spectrum(wa.copy(), va.copy(), 'nm').add(Spectrum(wb.copy(), vb.copy(), 'nm'), fill_value=fill)
+        grid, val = reference(wa, va.astype(float), wb, vb.astype(float), 'add', 'min', 'linear', fill)
+        inner = np.array([np.min(np.abs(np.array([400., 700, 430, 760]) - g)) > 1e-6 for g in grid])
+        ok = res.wave.shape == grid.shape and np.allclose(res.wave, grid, rtol=1e-9) and np.allclose(res.value[inner], val[inner], rtol=1e-9, atol=1e-12)
+        c.check(bool(ok), {'value_dtypes': (dta.__name__, dtb.__name__), 'fill': fill})
 emit([a, b, c])
